@@ -624,9 +624,9 @@ func genC04ab(c *Ctx) {
 		out := c.Emit("c04 " + kind + " " + s.tok() + " " + encPos(p))
 		c.Count("out=" + strings.Fields(out + " x")[0])
 		// tie the Go notion of "legal" used above to the rule book for the move actually returned
-		e := newEngine(size, s.tok())
-		m := e.ai.GetMove(ctxBackground, p)
-		c.Emit("slegalmem " + encPos(p) + " " + encMove(m))
+		if m, ok := safeGetMove(size, s.tok(), p); ok {
+			c.Emit("slegalmem " + encPos(p) + " " + encMove(m))
+		}
 	}
 	// stale hints: one engine reused across unrelated positions of the same size
 	n = c.Scale(60, 6000)
@@ -651,6 +651,17 @@ func genC04ab(c *Ctx) {
 			c.Count("stale.out=" + strings.Fields(out + " x")[0])
 		}
 	}
+}
+
+// safeGetMove: GetMove on a fresh engine; ok=false when the engine panicked (the c04 op line reports that)
+func safeGetMove(size int, tok string, p *tak.Position) (m tak.Move, ok bool) {
+	defer func() {
+		if r := recover(); r != nil {
+			ok = false
+		}
+	}()
+	e := newEngine(size, tok)
+	return e.ai.GetMove(ctxBackground, p), true
 }
 
 // latticeCfg draws from the option lattice of C04.
